@@ -131,6 +131,12 @@ def r1(R, repo):
           if isinstance(st, ast.Assign) and isinstance(st.value, ast.Dict) and not st.value.keys:
             ok = True
     R.check(ok, key_of(U, 'sentinel -> {}'), U, '%s must replace the empty-node sentinel by a new empty dict' % unfl)
+    cu = cfg_of(U)
+    st_ = [n for n in cu.nodes if n.kind == 'if' and any(e in ast.walk(n.ast) for e in um)]
+    sp_ = [n for n in cu.nodes if n.kind == 'if' and astu.src(n.ast) in ('sep is None', 'sep is not None')]
+    indep = bool(st_) and bool(sp_) and not any(cu.edge_guarded(a, b, lab) for a in st_ for b in sp_ for lab in ('T', 'F'))
+    R.check(indep, key_of(U, 'sentinel restored with and without a separator'), U,
+            '%s tests for the empty-node sentinel only on one branch of the separator test: with sep given (or not given) empty sub-dicts come back as the sentinel object instead of {}' % unfl)
   # (c) path_aware_map
   mod = repo.mod(TU)
   P = mod.func('path_aware_map')
@@ -336,8 +342,12 @@ def r4(R, repo):
   mod = repo.mod(SL)
   M = mod.func('merge_state')
   loops = [n for n in astu.body_walk(M.node) if isinstance(n, ast.For)]
-  R.require(len(loops) == 1, 'merge_state: single loop over states expected')
-  lp = loops[0]
+  if len(loops) != 1:
+    R.fail(key_of(M, 'later states win'), M, 'merge_state no longer folds the states one by one with dict.update in argument order (later states must win on overlapping paths)')
+    loops = None
+  lp = loops[0] if loops else None
+  if lp is None:
+    lp = ast.parse('for _ in (): pass').body[0]
   seq = types.single_def(M.node, lp.iter.id, allow_param=True) if isinstance(lp.iter, ast.Name) else None
   order_ok = isinstance(lp.iter, ast.Name) and isinstance(seq, ast.Tuple) and len(seq.elts) == 2 and \
       isinstance(seq.elts[0], ast.Name) and seq.elts[0].id == astu.params(M.node)[0] and isinstance(seq.elts[1], ast.Starred)
